@@ -2,6 +2,7 @@ import MpVerif.C07.Lemmas
 import MpVerif.C07.LemmasRecomp
 import MpVerif.C07.LemmasPL
 import MpVerif.Gen.SolCheck
+import MpVerif.C07.Spec
 set_option linter.unusedSimpArgs false
 /-!
 # C07 — property theorems
@@ -653,6 +654,420 @@ theorem C07_gen_structure :
   decide
 
 
+/-! ## 8b. the independent specification (`Spec.lean`): no report ⇔ the point satisfies the model within tolerances
+
+`SatTolPass` / `SatTol` are written from the model data and the property text alone (no candidate list, no `Violation`, no
+checker function).  `C07_sat_pass_partial` / `C07_sat_iff_partial`: the checker's report is empty exactly when they hold —
+under the explicit hypotheses `SatHyp` that name the two places where the real checker does NOT follow the specification
+(the theorems carry `_partial` for that reason; the full-strength statement is the same equivalence without
+`untested_hold` and `no_ctx_none`, and is FALSE for the code as it exists: `C07_counterexample_untested_adef`,
+`C07_counterexample_untested_unused`, `C07_counterexample_ctx_none` right below). -/
+
+/-- the row holds exactly -/
+def RowExact (c : AlgCon) (x : Pt) : Prop :=
+  (∀ l, c.lo = some l → l ≤ c.body.val x) ∧ (∀ u, c.hi = some u → c.body.val x ≤ u)
+
+theorem alg_viol_gt_iff (c : AlgCon) (x : Pt) : (c.viol x).viol.gtRat 0 = true ↔ ¬ RowExact c x := by
+  unfold AlgCon.viol RowExact
+  generalize c.body.val x = bd
+  cases hlo : c.lo <;> cases hhi : c.hi <;> simp only [] <;> (repeat' split) <;>
+    simp [ER.gtRat, Rat.max_def] <;> (try split) <;> grind
+
+theorem rowOK_of_exact (c : AlgCon) (x : Pt) (ea er : Rat) (hea : 0 ≤ ea) (h : RowExact c x) : RowOK c x ea er := by
+  unfold RowOK TolLE; unfold RowExact at h
+  constructor
+  · intro l hl; left; have := h.1 l hl; grind
+  · intro u hu; left; have := h.2 u hu; grind
+
+theorem exact_of_margin (c : AlgCon) (x : Pt) (ea : Rat) (hea : 0 ≤ ea) (h : RowMargin c x ea) : RowExact c x := by
+  unfold RowExact; unfold RowMargin at h
+  constructor
+  · intro l hl; have := h.1 l hl; grind
+  · intro u hu; have := h.2 u hu; grind
+
+/-- on a row that holds exactly the measure is `-slack` with reference 0 -/
+theorem alg_viol_valid (c : AlgCon) (x : Pt) (ea : Rat) (h : RowExact c x) :
+    (c.viol x).ref = 0 ∧
+    ((c.viol x).viol = .ninf ∧ RowMargin c x ea ∨ ∃ a, (c.viol x).viol = .fin a ∧ a ≤ 0 ∧ (ea < -a ↔ RowMargin c x ea)) := by
+  unfold AlgCon.viol RowMargin; unfold RowExact at h
+  generalize c.body.val x = bd at h ⊢
+  cases hlo : c.lo <;> cases hhi : c.hi <;> simp only [hlo, hhi] at h ⊢
+  · simp
+  · rename_i u
+    have hu : bd ≤ u := h.2 u rfl
+    have : ¬ (u < bd) := by grind
+    simp [this]; grind
+  · rename_i l
+    have hl : l ≤ bd := h.1 l rfl
+    have : ¬ (bd < l) := by grind
+    simp [this]; grind
+  · rename_i l u
+    have hl : l ≤ bd := h.1 l rfl
+    have hu : bd ≤ u := h.2 u rfl
+    have h1 : ¬ (bd < l) := by grind
+    have h2 : ¬ (u < bd) := by grind
+    simp only [h1, h2, if_false, true_and]
+    right
+    refine ⟨_, rfl, ?_, ?_⟩
+    · rw [Rat.max_def]; split <;> grind
+    · rw [Rat.max_def]; split <;> constructor <;> intro hh <;> (try constructor) <;> (try intro _ hx; cases hx) <;> grind
+
+
+theorem zero_check (ea : Rat) (er : Option Rat) (hea : 0 ≤ ea) : ((⟨.fin 0, 0⟩ : Violation).check ea er).1 = false := by
+  have : ¬ (ea < 0) := by grind
+  simp [Violation.check, this]
+
+/-- reified row on the solver's values -/
+theorem cond_real_iff (res : Nat) (ctx : Ctx) (c : AlgCon) (e : Env) (ea er : Rat) (hea : 0 ≤ ea) (hwf : c.wf) (hbd : c.bounded)
+    (hr : e.recomp = false) (hc : ctx ≠ .none) :
+    ((condViol res ctx c e).check ea (some er)).1 = false ↔
+      CondSpec ctx (decide ((1/2 : Rat) ≤ e.x res)) c e.x ea er := by
+  have hrow := C07_within_alg c e.x ea er hea hwf
+  have hrowOK : ((c.viol e.x).check ea (some er)).1 = false ↔ RowOK c e.x ea er := by
+    rw [hrow]; rfl
+  unfold condViol CondSpec
+  simp only [hr, Bool.false_eq_true, if_false]
+  by_cases hv : RowExact c e.x
+  · -- the row holds exactly
+    have hgt : (c.viol e.x).viol.gtRat 0 = false := by
+      cases h : (c.viol e.x).viol.gtRat 0 with
+      | false => rfl
+      | true => exact absurd hv ((alg_viol_gt_iff c e.x).mp h)
+    have hok := rowOK_of_exact c e.x ea er hea hv
+    obtain ⟨href, hcase⟩ := alg_viol_valid c e.x ea hv
+    by_cases hb : (1/2 : Rat) ≤ e.x res
+    · cases ctx <;> simp [hgt, hb, zero_check ea _ hea, hok] at hc ⊢
+    · rcases hcase with ⟨hn, hm⟩ | ⟨a, ha, ha0, hiff⟩
+      · exfalso
+        unfold AlgCon.viol at hn; unfold AlgCon.bounded at hbd
+        cases hlo : c.lo <;> cases hhi : c.hi <;> simp [hlo, hhi] at hn hbd <;> (repeat' split at hn) <;> simp at hn
+      · have hra : rabs a = -a := by unfold rabs; split <;> grind
+        have hg2 : (ER.fin a).gtRat 0 = false := by simp [ER.gtRat]; grind
+        cases ctx <;> simp only [hgt, hb, ha, hg2, href, hra, decide_false, decide_true, Bool.not_false, Bool.not_true,
+            Bool.false_or, Bool.or_false, Bool.true_or, Bool.or_true, if_true, if_false, Bool.false_eq_true, beq_iff_eq,
+            within_fin_some _ _ _ _ hea, zero_check ea _ hea, true_iff, ne_eq, not_true_eq_false, false_and, or_false,
+            forall_const, false_implies, true_and, reduceCtorEq, not_false_eq_true] at hc ⊢
+        all_goals first | exact absurd rfl hc | grind
+  · -- the row is violated
+    have hgt : (c.viol e.x).viol.gtRat 0 = true := by
+      cases h : (c.viol e.x).viol.gtRat 0 with
+      | true => rfl
+      | false =>
+        exfalso; apply hv
+        apply Classical.byContradiction
+        intro hn
+        have := (alg_viol_gt_iff c e.x).mpr hn
+        simp [h] at this
+    have hnm : ¬ RowMargin c e.x ea := fun h => hv (exact_of_margin c e.x ea hea h)
+    -- the amount is finite and positive
+    have hfin : ∃ a, (c.viol e.x).viol = .fin a ∧ 0 < a := by
+      cases hvv : (c.viol e.x).viol with
+      | ninf => simp [hvv, ER.gtRat] at hgt
+      | pinf =>
+        exfalso
+        unfold AlgCon.viol at hvv
+        cases hlo : c.lo <;> cases hhi : c.hi <;> simp [hlo, hhi] at hvv <;> (repeat' split at hvv) <;> simp at hvv
+      | fin a => exact ⟨a, rfl, by simpa [hvv, ER.gtRat] using hgt⟩
+    obtain ⟨a, ha, hpos⟩ := hfin
+    have hra : rabs a = a := rabs_of_nonneg (by grind)
+    have hv' : (⟨ER.fin a, (c.viol e.x).ref⟩ : Violation) = c.viol e.x := by
+      cases hc2 : c.viol e.x; simp [hc2] at ha; simp [ha]
+    by_cases hb : (1/2 : Rat) ≤ e.x res
+    · cases ctx <;> simp only [hgt, hb, ha, hra, hv', decide_true, decide_false, Bool.not_true, Bool.not_false, Bool.false_or,
+          Bool.or_false, Bool.true_or, Bool.or_true, if_true, if_false, Bool.false_eq_true, beq_iff_eq, hrowOK,
+          zero_check ea _ hea, true_iff, forall_const, false_implies, true_and, and_true, reduceCtorEq,
+          Bool.true_eq_false, not_false_eq_true] at hc ⊢
+      all_goals first | exact absurd rfl hc | grind | (simp [hnm])
+    · cases ctx <;> simp [hgt, hb, zero_check ea _ hea, hnm] at hc ⊢
+
+/-- **one constraint**: its tolerance test passes iff the constraint's specification holds -/
+theorem con_check_iff (c : Con) (e : Env) (ea er : Rat) (hea : 0 ≤ ea) (hwf : c.wf)
+    (hadef : ∀ r cx b, c ≠ .adef r cx b) (hnone : c.ctxNone = false ∨ e.recomp = true) :
+    ((c.viol e).check ea (some er)).1 = false ↔ ConSpec c e ea er := by
+  cases c with
+  | alg a =>
+    have := C07_within_alg a e.x ea er hea hwf
+    simpa [Con.viol, ConSpec, RowOK, TolLE] using this
+  | func res ctx f =>
+    cases hr : e.recomp
+    · have hc : ctx ≠ .none := by
+        rcases hnone with h | h
+        · intro hcx; subst hcx; simp [Con.ctxNone] at h
+        · simp [hr] at h
+      have := C07_within_func res ctx f e ea er hea hr
+      cases ctx <;> simp_all [Con.viol, ConSpec, FuncSpec, TolLE]
+    · have := C07_within_func_ideal res ctx f e ea er hea hr
+      simpa [Con.viol, ConSpec, RecompSpec, TolLE, hr] using this
+  | adef r cx b => exact absurd rfl (hadef r cx b)
+  | cond res ctx a =>
+    cases hr : e.recomp
+    · have hc : ctx ≠ .none := by
+        rcases hnone with h | h
+        · intro hcx; subst hcx; simp [Con.ctxNone] at h
+        · simp [hr] at h
+      have := cond_real_iff res ctx a e ea er hea hwf.1 hwf.2 hr hc
+      simpa [Con.viol, ConSpec, hr] using this
+    · have := C07_within_cond_ideal res ctx a e ea er hea hr
+      simpa [Con.viol, ConSpec, RecompSpec, TolLE, hr] using this
+  | indicator b bv a =>
+    simp only [Con.viol, ConSpec]
+    by_cases hb : cround (e.x b) = bv
+    · have := C07_within_alg a e.x ea er hea hwf
+      simpa [hb, RowOK, TolLE] using this
+    · simp [hb, zero_check ea _ hea]
+  | sos1 vs =>
+    simp only [Con.viol, ConSpec, sos1Viol, within_fin_some _ _ _ _ hea]
+    simp
+  | sos2 vs =>
+    simp only [Con.viol, ConSpec, sos2Viol, within_fin_some _ _ _ _ hea]
+    simp
+  | compl ex v =>
+    simp only [Con.viol, ConSpec, complViol]
+    split <;> (try split) <;> simp [within_fin_some _ _ _ _ hea]
+
+theorem mem_checkedVars (m : Model) (recomp aux : Bool) (i : Nat) :
+    i ∈ m.checkedVars recomp aux ↔ i < m.nvars ∧ (!(m.var i).orig) = aux ∧ ((m.var i).orig = true ∨ recomp = false) := by
+  unfold Model.checkedVars
+  simp only [List.mem_filter, List.mem_reverse, List.mem_range, Bool.and_eq_true, beq_iff_eq, Bool.or_eq_true,
+    Bool.not_eq_true']
+
+/-- variables: all bound / integrality tests pass iff every checked variable is within its bounds and integral -/
+theorem vars_iff (m : Model) (o : Opts) (x : Pt) (recomp : Bool) (hft : 0 ≤ o.feastol) (hit : 0 ≤ o.inttol) :
+    (∀ c, (c ∈ m.varBndCands o x recomp false ∨ c ∈ m.varBndCands o x recomp true ∨
+           c ∈ m.varIntCands o x recomp false ∨ c ∈ m.varIntCands o x recomp true) → c.violated = false) ↔
+    (∀ i, i < m.nvars → ((m.var i).orig = true ∨ recomp = false) →
+      BoundsOK (m.var i) (x i) o.feastol o.feastolrel ∧ ((m.var i).isInt = true → IntOK (x i) o.inttol)) := by
+  have hlb := fun i => C07_within_lb (m.var i).lb (x i) o.feastol o.feastolrel (m.var i).name hft
+  have hub := fun i => C07_within_ub (m.var i).ub (x i) o.feastol o.feastolrel (m.var i).name hft
+  have hint := fun i => C07_integrality (x i) o.inttol (m.var i).name hit
+  constructor
+  · intro h i hi hsel
+    have hmem : i ∈ m.checkedVars recomp (!(m.var i).orig) := (mem_checkedVars m recomp _ i).mpr ⟨hi, rfl, hsel⟩
+    have hB : ∀ cd, cd ∈ [(⟨boundLbViol (m.var i).lb (x i), o.feastol, some o.feastolrel, (m.var i).name⟩ : Cand),
+        ⟨boundUbViol (m.var i).ub (x i), o.feastol, some o.feastolrel, (m.var i).name⟩] → cd.violated = false := by
+      intro cd hcd
+      have hin : cd ∈ m.varBndCands o x recomp (!(m.var i).orig) := List.mem_flatMap.mpr ⟨i, hmem, hcd⟩
+      apply h
+      cases ho : (m.var i).orig <;> simp [ho] at hin ⊢ <;> simp [hin]
+    refine ⟨⟨(hlb i).mp (hB _ (by simp)), (hub i).mp (hB _ (by simp))⟩, ?_⟩
+    intro hI
+    have hin : (⟨intViol (x i), o.inttol, some 0, (m.var i).name⟩ : Cand) ∈ m.varIntCands o x recomp (!(m.var i).orig) := by
+      unfold Model.varIntCands
+      exact List.mem_map.mpr ⟨i, List.mem_filter.mpr ⟨hmem, hI⟩, rfl⟩
+    apply (hint i).mp
+    apply h
+    cases ho : (m.var i).orig <;> simp [ho] at hin ⊢ <;> simp [hin]
+  · intro h c hc
+    have key : ∀ aux, (c ∈ m.varBndCands o x recomp aux ∨ c ∈ m.varIntCands o x recomp aux) → c.violated = false := by
+      intro aux hca
+      rcases hca with hb | hi
+      · unfold Model.varBndCands at hb
+        obtain ⟨i, hmem, hcd⟩ := List.mem_flatMap.mp hb
+        obtain ⟨hi, _, hsel⟩ := (mem_checkedVars m recomp aux i).mp hmem
+        have := (h i hi hsel).1
+        simp only [List.mem_cons, List.mem_nil_iff, or_false] at hcd
+        rcases hcd with rfl | rfl
+        · exact (hlb i).mpr this.1
+        · exact (hub i).mpr this.2
+      · unfold Model.varIntCands at hi
+        obtain ⟨i, hmem, rfl⟩ := List.mem_map.mp hi
+        obtain ⟨hmem, hI⟩ := List.mem_filter.mp hmem
+        obtain ⟨hi, _, hsel⟩ := (mem_checkedVars m recomp aux i).mp hmem
+        exact (hint i).mpr ((h i hi hsel).2 hI)
+    rcases hc with h1 | h1 | h1 | h1
+    · exact key false (Or.inl h1)
+    · exact key true (Or.inl h1)
+    · exact key false (Or.inr h1)
+    · exact key true (Or.inr h1)
+
+theorem cons_iff (m : Model) (o : Opts) (mode : Nat) (e : Env) (hft : 0 ≤ o.feastol)
+    (hwf : ∀ kp, kp ∈ m.keepers → ∀ it, it ∈ kp.items → it.con.wf)
+    (hunt : ∀ kp, kp ∈ m.keepers → ∀ it, it ∈ kp.items → it.untested = true → it.cclass &&& mode ≠ 0 →
+      ConSpec it.con e o.feastol o.feastolrel)
+    (hnone : e.recomp = true ∨ ∀ kp, kp ∈ m.keepers → ∀ it, it ∈ kp.items → it.unused = false → it.cclass &&& mode ≠ 0 →
+      it.con.ctxNone = false) :
+    (∀ c, c ∈ m.keepers.flatMap (fun kp => kp.selCands o mode e) → c.violated = false) ↔
+    (∀ kp, kp ∈ m.keepers → ∀ it, it ∈ kp.items → it.cclass &&& mode ≠ 0 → ConSpec it.con e o.feastol o.feastolrel) := by
+  constructor
+  · intro h kp hkp it hit hcl
+    by_cases hu : it.untested = true
+    · exact hunt kp hkp it hit hu hcl
+    · have hun : it.unused = false := by
+        unfold Item.untested at hu; cases h1 : it.unused <;> simp [h1] at hu ⊢
+      have hna : ∀ r cx b, it.con ≠ .adef r cx b := by
+        intro r cx b hc; unfold Item.untested at hu; simp [hc] at hu
+      have hsel : it.selected mode = true := by unfold Item.selected; simp [hun, hcl]
+      have hc : (⟨it.con.viol e, o.feastol, some o.feastolrel, it.name⟩ : Cand).violated = false := by
+        apply h
+        refine List.mem_flatMap.mpr ⟨kp, hkp, ?_⟩
+        unfold Keeper.selCands
+        exact List.mem_map.mpr ⟨it, List.mem_filter.mpr ⟨List.mem_reverse.mpr hit, hsel⟩, rfl⟩
+      have hn : it.con.ctxNone = false ∨ e.recomp = true := by
+        rcases hnone with h1 | h1
+        · exact Or.inr h1
+        · exact Or.inl (h1 kp hkp it hit hun hcl)
+      exact (con_check_iff it.con e o.feastol o.feastolrel hft (hwf kp hkp it hit) hna hn).mp hc
+  · intro h c hc
+    obtain ⟨kp, hkp, hc⟩ := List.mem_flatMap.mp hc
+    unfold Keeper.selCands at hc
+    obtain ⟨it, hmem, rfl⟩ := List.mem_map.mp hc
+    obtain ⟨hit, hsel⟩ := List.mem_filter.mp hmem
+    have hit := List.mem_reverse.mp hit
+    unfold Item.selected at hsel
+    simp only [Bool.and_eq_true, Bool.not_eq_true', decide_eq_true_eq] at hsel
+    have hspec := h kp hkp it hit hsel.2
+    unfold Cand.violated
+    by_cases hadef : ∃ r cx b, it.con = .adef r cx b
+    · obtain ⟨r, cx, b, hc⟩ := hadef
+      rw [hc]; exact C07_adef_never_reported r cx b e o.feastol _ hft
+    · have hna : ∀ r cx b, it.con ≠ .adef r cx b := fun r cx b hc => hadef ⟨r, cx, b, hc⟩
+      have hn : it.con.ctxNone = false ∨ e.recomp = true := by
+        rcases hnone with h1 | h1
+        · exact Or.inr h1
+        · exact Or.inl (h1 kp hkp it hit hsel.1 hsel.2)
+      exact (con_check_iff it.con e o.feastol o.feastolrel hft (hwf kp hkp it hit) hna hn).mpr hspec
+
+theorem obj_iff (m : Model) (o : Opts) (x : Pt) (objv : List Rat) (hft : 0 ≤ o.feastol) :
+    (∀ c, c ∈ m.objCands o x objv → c.violated = false) ↔
+    (∀ i, i < min m.objs.length objv.length →
+      TolLE (rabs (objv.getD i 0 - (m.objs.getD i default).body.val x)) ((m.objs.getD i default).body.val x)
+        o.feastol o.feastolrel) := by
+  unfold Model.objCands
+  constructor
+  · intro h i hi
+    have := h _ (List.mem_map.mpr ⟨i, List.mem_reverse.mpr (List.mem_range.mpr hi), rfl⟩)
+    unfold Cand.violated at this
+    exact (within_fin_some _ _ _ _ hft).mp this
+  · intro h c hc
+    obtain ⟨i, hi, rfl⟩ := List.mem_map.mp hc
+    have hi := List.mem_range.mp (List.mem_reverse.mp hi)
+    unfold Cand.violated
+    exact (within_fin_some _ _ _ _ hft).mpr (h i hi)
+
+/-- hypotheses under which the checker follows the specification -/
+structure SatHyp (m : Model) (o : Opts) (e : Env) (mode : Nat) : Prop where
+  feastol_nonneg : 0 ≤ o.feastol
+  inttol_nonneg : 0 ≤ o.inttol
+  wf : ∀ kp, kp ∈ m.keepers → ∀ it, it ∈ kp.items → it.con.wf
+  /-- EXCEPTION 1 (see `C07_counterexample_untested_*`): the constraints the checker never tests are assumed to hold -/
+  untested_hold : ∀ kp, kp ∈ m.keepers → ∀ it, it ∈ kp.items → it.untested = true → it.cclass &&& mode ≠ 0 →
+      ConSpec it.con e o.feastol o.feastolrel
+  /-- EXCEPTION 2 (see `C07_counterexample_ctx_none`): on the solver's values no selected constraint has `CTX_NONE` -/
+  no_ctx_none : e.recomp = true ∨ ∀ kp, kp ∈ m.keepers → ∀ it, it ∈ kp.items → it.unused = false →
+      it.cclass &&& mode ≠ 0 → it.con.ctxNone = false
+
+theorem C07_sat_pass_partial (m : Model) (o : Opts) (xs objv raw : List Rat) (recomp : Bool)
+    (H : SatHyp m o (passEnv m o xs raw recomp) (passMode o recomp)) :
+    (doCheckSol m o xs objv raw recomp).1 = [] ↔
+      SatTolPass m o (passEnv m o xs raw recomp) (passMode o recomp) objv := by
+  rw [doCheckSol_eq_nil]
+  have hv := vars_iff m o (passEnv m o xs raw recomp).x recomp H.feastol_nonneg H.inttol_nonneg
+  have hc := cons_iff m o (passMode o recomp) (passEnv m o xs raw recomp) H.feastol_nonneg H.wf H.untested_hold H.no_ctx_none
+  have ho := obj_iff m o (passEnv m o xs raw recomp).x objv H.feastol_nonneg
+  have split : ∀ (A B C : List Cand), (∀ c, c ∈ A ++ B ++ C → c.violated = false) ↔
+      ((∀ c, c ∈ A → c.violated = false) ∧ (∀ c, c ∈ B → c.violated = false) ∧ (∀ c, c ∈ C → c.violated = false)) := by
+    intro A B C; simp only [List.mem_append]; grind
+  have ite : ∀ (p : Prop) [Decidable p] (L : List Cand),
+      (∀ c, c ∈ (if p then L else []) → c.violated = false) ↔ (p → ∀ c, c ∈ L → c.violated = false) := by
+    intro p _ L; by_cases hp : p <;> simp [hp]
+  unfold passCands SatTolPass
+  simp only []
+  rw [split, ite, ite, ite]
+  refine and_congr (imp_congr_right fun _ => ?_) (and_congr (imp_congr_right fun _ => ?_) (imp_congr_right fun _ => ?_))
+  · simp only [List.mem_append, or_assoc]; exact hv
+  · exact hc
+  · exact ho
+
+
+/-- **the point satisfies the model within tolerances**: on the solver's values for the classes selected by the low mode bits,
+on the recomputed values for the classes selected by the high ones -/
+def SatTol (m : Model) (o : Opts) (xs objv : List Rat) : Prop :=
+  (o.mode &&& 31 ≠ 0 → SatTolPass m o (passEnv m o xs [] false) (passMode o false) objv) ∧
+  (o.mode &&& 992 ≠ 0 →
+    SatTolPass m o (passEnv m o (recompute m o xs) (xBack m o xs) true) (passMode o true) objv)
+
+/-- **C07_sat_iff_partial**: for every solver status, `CheckSolution` has no report iff the check is exempt (status 200..299
+without `sol:chk:infeas`) or the point satisfies the model within tolerances (`SatTol`) — given `SatHyp` for the passes that run -/
+theorem C07_sat_iff_partial (m : Model) (o : Opts) (xs objv : List Rat) (code : Int)
+    (Hreal : o.mode &&& 31 ≠ 0 → SatHyp m o (passEnv m o xs [] false) (passMode o false))
+    (Hideal : o.mode &&& 992 ≠ 0 →
+      SatHyp m o (passEnv m o (recompute m o xs) (xBack m o xs) true) (passMode o true)) :
+    (checkSolutionCode m o xs objv code).hasReport = false ↔
+      (((200 ≤ code ∧ code ≤ 299) ∧ o.infeas = false) ∨ SatTol m o xs objv) := by
+  unfold checkSolutionCode
+  rw [C07_iff]
+  have hk : (isProblemInfeasible code = true ∧ o.infeas = false) ↔ ((200 ≤ code ∧ code ≤ 299) ∧ o.infeas = false) := by
+    unfold isProblemInfeasible; simp only [Bool.and_eq_true, decide_eq_true_eq]
+  rw [hk]
+  unfold SatTol
+  refine or_congr Iff.rfl (and_congr ?_ ?_)
+  · constructor
+    · intro h hb
+      exact (C07_sat_pass_partial m o xs objv [] false (Hreal hb)).mp ((doCheckSol_eq_nil m o xs objv [] false).mpr (h hb))
+    · intro h hb
+      exact (doCheckSol_eq_nil m o xs objv [] false).mp ((C07_sat_pass_partial m o xs objv [] false (Hreal hb)).mpr (h hb))
+  · constructor
+    · intro h hb
+      exact (C07_sat_pass_partial m o _ objv _ true (Hideal hb)).mp ((doCheckSol_eq_nil m o _ objv _ true).mpr (h hb))
+    · intro h hb
+      exact (doCheckSol_eq_nil m o _ objv _ true).mp ((C07_sat_pass_partial m o _ objv _ true (Hideal hb)).mpr (h hb))
+
+/-! ### the exceptions are real: counterexamples to the equivalence without `SatHyp.untested_hold` / `SatHyp.no_ctx_none` -/
+
+/-- `r = 2·x` (linear functional constraint, never tested), row `r ≤ 5`; the solver claims `r = 1` at `x = 4` -/
+def cexAdefModel : Model :=
+  ⟨[⟨some 0, some 10, false, true, "x", none⟩, ⟨some (-100), some 100, false, false, "r", some (0, 0)⟩],
+   [⟨"_linfunccon", false, [⟨.adef 1 .mix ⟨[(2, 0)], [], 0⟩, 0, true, false, "d"⟩]⟩,
+    ⟨"_linrange", false, [⟨.alg ⟨⟨[(1, 1)], [], 0⟩, .range, none, some 5⟩, 0, false, false, "c"⟩]⟩], []⟩
+
+/-- no report on the solver's values, although the specification fails (`|1 − 8|` is not within tolerance) -/
+theorem C07_counterexample_untested_adef :
+    (checkSolutionCode cexAdefModel (cexOpts 3) [4, 1] [] 0).hasReport = false ∧
+    ¬ SatTolPass cexAdefModel (cexOpts 3) (passEnv cexAdefModel (cexOpts 3) [4, 1] [] false) (passMode (cexOpts 3) false) [] := by
+  refine ⟨by decide +kernel, ?_⟩
+  intro h
+  have := h.2.1 (by decide) ⟨"_linfunccon", false, [⟨.adef 1 .mix ⟨[(2, 0)], [], 0⟩, 0, true, false, "d"⟩]⟩
+    (by simp [cexAdefModel]) ⟨.adef 1 .mix ⟨[(2, 0)], [], 0⟩, 0, true, false, "d"⟩ (by simp) (by decide)
+  simp only [ConSpec, passEnv, Model.envOf, Bool.false_eq_true, if_false, FuncSpec, TolLE] at this
+  revert this
+  decide +kernel
+
+/-- a row `x ≤ 5` marked unused, `x = 7`: skipped by the checker -/
+def cexUnusedModel : Model :=
+  ⟨[⟨some 0, some 10, false, true, "x", none⟩],
+   [⟨"_linrange", false, [⟨.alg ⟨⟨[(1, 0)], [], 0⟩, .range, none, some 5⟩, 0, true, true, "c"⟩]⟩], []⟩
+
+theorem C07_counterexample_untested_unused :
+    (checkSolutionCode cexUnusedModel (cexOpts 3) [7] [] 0).hasReport = false ∧
+    ¬ SatTolPass cexUnusedModel (cexOpts 3) (passEnv cexUnusedModel (cexOpts 3) [7] [] false) (passMode (cexOpts 3) false) [] := by
+  refine ⟨by decide +kernel, ?_⟩
+  intro h
+  have := h.2.1 (by decide) ⟨"_linrange", false, [⟨.alg ⟨⟨[(1, 0)], [], 0⟩, .range, none, some 5⟩, 0, true, true, "c"⟩]⟩
+    (by simp [cexUnusedModel]) ⟨.alg ⟨⟨[(1, 0)], [], 0⟩, .range, none, some 5⟩, 0, true, true, "c"⟩ (by simp) (by decide)
+  simp only [ConSpec, RowOK, TolLE] at this
+  have h2 := this.2 5 rfl
+  revert h2
+  simp only [passEnv, Model.envOf]
+  decide +kernel
+
+/-- `r = |x|` whose result is used nowhere (`CTX_NONE`), with the exact value: the specification holds, the checker reports -/
+def cexCtxNoneModel : Model :=
+  ⟨[⟨some 0, some 10, false, true, "x", none⟩, ⟨some 0, some 10, false, false, "r", some (0, 0)⟩],
+   [⟨"_abs", false, [⟨.func 1 .none (.abs 0), 0, false, false, "a"⟩]⟩], []⟩
+
+theorem C07_counterexample_ctx_none :
+    (checkSolutionCode cexCtxNoneModel (cexOpts 2) [3, 3] [] 0).hasReport = true ∧
+    SatTolPass cexCtxNoneModel (cexOpts 2) (passEnv cexCtxNoneModel (cexOpts 2) [3, 3] [] false) (passMode (cexOpts 2) false) [] := by
+  refine ⟨by decide +kernel, ?_, ?_, ?_⟩
+  · intro h; exact absurd h (by decide)
+  · intro _ kp hkp it hit _
+    simp only [cexCtxNoneModel, List.mem_cons, List.mem_nil_iff, or_false] at hkp
+    subst hkp
+    simp only [List.mem_cons, List.mem_nil_iff, or_false] at hit
+    subst hit
+    simp [ConSpec, passEnv, Model.envOf, FuncSpec]
+  · intro h; exact absurd h (by decide)
+
 /-! ## 9. non-vacuity: concrete, non-trivial instances of the hypotheses (and of each direction of the iff-theorems) -/
 
 -- tolerance test (`C07_tolerance_test`, hypothesis `0 ≤ epsabs`): reported / within the relative tolerance / within the absolute one
@@ -686,5 +1101,30 @@ example : (checkSolutionCode cexIntModel (cexOpts 1) [5/2] [] 300).hasReport = t
 example : (checkSolutionCode cexIntModel { cexOpts 1 with infeas := true } [5/2] [] 210).hasReport = true := by decide +kernel
 -- `C07_fail`: with the option a report gives 150, no report gives nothing
 example : solveCodeOverride { cexOpts 1 with fail := true } (checkSolutionCode cexIntModel (cexOpts 1) [3] [] 0) = none := by decide +kernel
+
+-- `C07_sat_pass_partial` / `C07_sat_iff_partial`: the hypotheses `SatHyp` hold for a non-trivial model (a reified row in negative
+-- context, nothing untested, no `CTX_NONE`), and there the equivalence decides both ways (x = 7 violates, x = 3 satisfies)
+example : SatHyp cexCondModel (cexOpts 3) (passEnv cexCondModel (cexOpts 3) [7, 0] [] false) (passMode (cexOpts 3) false) where
+  feastol_nonneg := by decide +kernel
+  inttol_nonneg := by decide +kernel
+  wf := by
+    intro kp hkp it hit
+    simp only [cexCondModel, List.mem_cons, List.mem_nil_iff, or_false] at hkp; subst hkp
+    simp only [List.mem_cons, List.mem_nil_iff, or_false] at hit; subst hit
+    refine ⟨?_, Or.inl (by simp)⟩
+    intro l u hl hu; simp at hu
+  untested_hold := by
+    intro kp hkp it hit hu
+    simp only [cexCondModel, List.mem_cons, List.mem_nil_iff, or_false] at hkp; subst hkp
+    simp only [List.mem_cons, List.mem_nil_iff, or_false] at hit; subst hit
+    simp [Item.untested] at hu
+  no_ctx_none := by
+    right
+    intro kp hkp it hit _ _
+    simp only [cexCondModel, List.mem_cons, List.mem_nil_iff, or_false] at hkp; subst hkp
+    simp only [List.mem_cons, List.mem_nil_iff, or_false] at hit; subst hit
+    rfl
+example : (checkSolutionCode cexCondModel (cexOpts 3) [7, 0] [] 0).hasReport = true ∧
+    (checkSolutionCode cexCondModel (cexOpts 3) [3, 0] [] 0).hasReport = false := by decide +kernel
 
 end MpVerif.C07
